@@ -47,6 +47,17 @@ CallClauses(ev) ==
     [] ev.call = "cli_add_metadata" -> Clauses_cli_add_metadata(ev)
     [] OTHER -> [TRACE_unknown_call |-> FALSE]
 
+CallProp(call) ==
+  CASE call \in {"filter", "remove_empty", "head"} -> "C08"
+    [] call \in {"sort_order", "sort", "transpose", "copy", "update_ids", "align_to"} -> "C06"
+    [] call = "merge" -> "C09" [] call = "concat" -> "C10" [] call \in {"partition", "collapse"} -> "C11"
+    [] call = "subsample" -> "C12" [] call \in {"transform", "norm", "pa", "rankdata"} -> "C13"
+    [] call \in {"add_metadata", "del_metadata", "cli_add_metadata", "mapfile"} -> "C18"
+    [] call \in {"construct", "construct_bad", "from_adjacency", "parse_uc"} -> "C17"
+    [] call = "rt_hdf5" -> "C01" [] call = "rt_json" -> "C02" [] call = "rt_tsv" -> "C03" [] call = "subset_read" -> "C14"
+    [] call = "summary" -> "C19" [] call = "validate" -> "C15" [] call = "eq" -> "C16"
+    [] OTHER -> "C05"
+
 \* clauses index tables by position; if some logged table is not even well-shaped they are
 \* not evaluated (TLC would raise an error, not answer FALSE) and the event fails C05 instead
 AllShaped(h) == \A s \in DOMAIN h : Shaped(h[s])
@@ -61,7 +72,9 @@ Dispatch(ev) ==
   ELSE IF AllShaped(ev.pre) /\ AllShaped(ev.post)
   THEN CallClauses(ev) @@ [C05_coherent_after_every_call |-> AllCoherent(ev.post)]
        @@ (IF ev.call \in NewTableCalls THEN [C07_inputs_unchanged |-> FrameRule(ev, {ev.res})] ELSE [TRACE_continuity |-> TRUE])
-  ELSE [C05_coherent_after_every_call |-> FALSE]
+  \* an ill-shaped table was produced: the call's own clauses cannot be evaluated position by position;
+  \* the event fails coherence (C05) and the result clause of the property the call belongs to
+  ELSE [C05_coherent_after_every_call |-> FALSE] @@ ((CallProp(ev.call) \o "_result_is_a_well_shaped_table") :> FALSE)
 
 FailedClauses(ev) == LET c == Dispatch(ev) IN {k \in DOMAIN c : ~c[k]}
 Holds(ev) == FailedClauses(ev) = {}
